@@ -505,6 +505,9 @@ def chain_engines():
     out['shared-input'] = [A('ta', 'a'), A('tc', 'c'),
                            A('tz', 'z', 'analysis', inputs=[('ta', 'a', 's', 'x')]),
                            A('tr', 'r', 'regress', inputs=[('ta', 'a', 's', 'x'), ('tc', 'c', 's', 'x')])]
+    # the same algorithm name in two tasks, one reading the other
+    out['same-name-two-tasks'] = [A('ta', 'fit'), A('tb', 'fit', inputs=[('ta', 'fit', 's', 'x')]),
+                                  A('tc', 'report', inputs=[('tb', 'fit', None, None)])]
     # names that are prefixes of one another, in one package
     out['chain3-prefix'] = [A('ta', 'a'), A('ta', 'ab', inputs=[('ta', 'a', None, None)]),
                             A('ta', 'abc', inputs=[('ta', 'ab', 's', 'x')])]
